@@ -41,6 +41,7 @@ def run(c):
         raise tlcmod.TlcError("Relay.tla: %s" % res.trace_text[:1500])
     nconn, nper = (8, 25) if not thorough else (16, 120)
     branches, meta = [], {}
+    faults, aborts = [], []
     dests = [("168.63.129.16", 80, "ws"), ("169.254.169.254", 80, "imds"), ("168.63.129.16", 32526, "ga"), ("10.9.8.7", 8080, "other")]
     for ci in range(nconn):
         conn = "t%d" % ci
@@ -77,8 +78,21 @@ def run(c):
                 ids.append(rid)
             for rid in ids:
                 br.append({"op": "recv", "conn": conn, "id": rid})
+        # last on the connection: a host that reads the request and drops the connection without answering
+        if ci % 2 == 0:
+            rid = "%s_f" % conn
+            br.append({"op": "request", "conn": conn, "id": rid, "method": rnd.choice(["POST", "PUT", "GET"]), "target": "/fault/" + rid,
+                       "headers": [["Host", dip]], "body": {"seed": 3, "len": 40}, "framing": "cl", "resp": {"status": 200, "framing": "reset"}})
+            faults.append(rid)
         br.append({"op": "close", "conn": conn})
         branches.append(br)
+        # a separate connection: an exempt upload abandoned in the middle of a chunk
+        ab = "%s_ab" % conn
+        branches.append([{"op": "connect", "conn": ab, "attr": {"uid": 0, "admin": 1, "dip": dip, "dport": dport}},
+                         {"op": "send_partial", "conn": ab, "id": ab, "method": "PUT", "target": rnd.choice(["/vmAgentLog", "/VMAGENTLOG", "/upload/x"]),
+                          "headers": [["Host", dip]], "body": {"seed": 5, "len": rnd.choice([64, 4096, 200000])}},
+                         {"op": "close", "conn": ab}])
+        aborts.append(ab)
     ev, d, _ = rig.run_rig({"steps": [{"op": "parallel", "branches": branches}], "drain_ms": 400}, "c14", timeout=900)
     recv_by_id, hseq, hconn_owner = {}, {}, {}
     for e in ev:
@@ -130,6 +144,18 @@ def run(c):
                     "respBody": e["bodyLen"] == m["rlen"] and e["bodySha"] == util.sha(rig.gen_body(m["rseed"], m["rlen"]))})
         rows.append(row)
         c.count(asked)
+    allrecv = {}
+    for e in ev:
+        if e["e"] == "HostRecv":
+            allrecv.setdefault(e["id"], []).append(e)
+    resp_by_id = {e["id"]: e for e in ev if e["e"] in ("Response", "ResponseError")}
+    for rid in faults:
+        r_ = resp_by_id.get(rid, {})
+        rows.append({"e": "xfault", "id": rid, "hostCount": len(allrecv.get(rid, [])), "clientStatus": r_.get("status", 0) if r_.get("e") == "Response" else 0})
+    for rid in aborts:
+        rows.append({"e": "xabort", "id": rid, "hostComplete": len(allrecv.get(rid, [])) > 0})
+    c.extra["host_fault_exchanges"] = len(faults)
+    c.extra["abandoned_uploads"] = len(aborts)
     if len(rows) < len(meta):
         raise util.ToolError("only %d of %d exchanges observed" % (len(rows), len(meta)))
     c.sample({"exchange": rows[0], "request": {k: meta[rows[0]["req"]][k] for k in ("method", "target", "headers", "blen", "status", "rlen")}})
